@@ -44,11 +44,14 @@ Section MidSound.
   Hypothesis Hb : forall a, 0 <= vrd a < 256.
   Hypothesis Hidx : 0 <= dictIdx /\ dictIdx <= prefixIdx /\ prefixIdx <= s0 /\ s0 + srcSize < M32.
   Hypothesis Hsz : 0 <= srcSize.
+  (* start of the history the decoder has: dictIdx, or lower when a dictionary context is attached (its content then
+     occupies the indices just below lowLimit) *)
+  Variable lo : Z.
+  Hypothesis Hlo : 0 <= lo <= dictIdx.
 
   Notation iend := (mi_iend s0 srcSize).
   Notation mflimit := (mi_mflimit s0 srcSize).
   Notation matchlimit := (mi_matchlimit s0 srcSize).
-  Notation lo := dictIdx.
 
   Lemma limits : mflimit = iend - 12 /\ matchlimit = iend - 5 /\ iend = s0 + srcSize.
   Proof. unfold mi_mflimit, mi_matchlimit, mi_iend, MFLIMIT, LASTLITERALS. lia. Qed.
@@ -88,6 +91,10 @@ Section MidSound.
   Definition found_ok (ip : Z) (f : found) : Prop :=
     (f_ip f = ip \/ (f_ip f = ip + 1 /\ ip < mflimit)) /\
     match_ok vrd lo (f_ip f) (f_dist f) (f_ml f) /\ f_ip f + f_ml f <= matchlimit.
+
+  (* the search into an attached dictionary context (constant None without one) only returns verified matches *)
+  Variable dsrch : Z -> option found.
+  Hypothesis Hdsrch : forall ip f, s0 <= ip <= mflimit -> dsrch ip = Some f -> found_ok ip f.
 
   Lemma search_sound ip h4 h8 :
     s0 <= ip <= mflimit -> tab_lt h4 ip -> tab_lt h8 ip ->
@@ -426,7 +433,7 @@ Section MidSound.
       + eapply tab_lt_mono; eauto; lia.
   Qed.
 
-  Lemma main_loop_sound : forall fuel s oend, MInv s -> RSpec (main_loop vrd lim prefixIdx dictIdx s0 srcSize fuel s oend).
+  Lemma main_loop_sound : forall fuel s oend, MInv s -> RSpec (main_loop vrd lim prefixIdx dictIdx s0 srcSize dsrch fuel s oend).
   Proof.
     induction fuel as [|fuel IH]; intros s oend HI; cbn [main_loop]; [exact I|]. cbv zeta.
     pose proof limits as (L1 & L2 & L3).
@@ -437,7 +444,13 @@ Section MidSound.
       + destruct Hs as (Hf & A4 & A8).
         pose proof (encode_step_sound s fd h4' h8' oend (conj Ha (conj Hae (conj Ho (conj Hop (conj T4 (conj T8 (conj T4e T8e))))))) ltac:(lia) Hf A4 A8) as He.
         destruct (encode_step vrd lim prefixIdx s0 srcSize s (u32 (m_ip s)) fd h4' h8' oend) as [s'|r]; [apply IH; exact He | exact He].
-      + destruct Hs as (A4 & A8). apply IH.
+      + destruct Hs as (A4 & A8).
+        destruct (dsrch (m_ip s)) as [fd|] eqn:Ed.
+        { pose proof (Hdsrch (m_ip s) fd ltac:(lia) Ed) as Hf.
+          pose proof (encode_step_sound s fd h4' h8' oend (conj Ha (conj Hae (conj Ho (conj Hop (conj T4 (conj T8 (conj T4e T8e))))))) ltac:(lia) Hf A4
+                        ltac:(eapply tab_lt_mono; eauto; lia)) as He.
+          destruct (encode_step vrd lim prefixIdx s0 srcSize s (u32 (m_ip s)) fd h4' h8' oend) as [s'|r]; [apply IH; exact He | exact He]. }
+        apply IH.
         assert (Hq : 0 <= (m_ip s - m_anchor s) / 512) by (Z.div_mod_to_equations; lia).
         unfold MInv. cbn [m_ip m_anchor m_op m_rout m_h4 m_h8].
         split; [lia|]. split; [lia|]. split; [exact Ho|]. split; [exact Hop|].
@@ -448,7 +461,7 @@ Section MidSound.
 
   Theorem mid_compress_sound h4 h8 :
     tab_lt h4 s0 -> tab_lt h8 s0 ->
-    RSpec (mid_compress vrd lim prefixIdx dictIdx s0 srcSize maxOut h4 h8).
+    RSpec (mid_compress vrd lim prefixIdx dictIdx s0 srcSize maxOut dsrch h4 h8).
   Proof.
     intros T4 T8. pose proof limits as (L1 & L2 & L3). unfold mid_compress.
     destruct ((srcSize <? 0) || (maxOut <? 0) || (srcSize >? LZ4_MAX_INPUT_SIZE)); [exact I|]. cbv zeta.
